@@ -485,7 +485,9 @@ def mon_c13(script, res):
                 return ('%sProcess(p%d) was issued after the shutdown/restart request and answered %s instead of SHUTDOWN_STATE'
                         % (r['kind'], r['i'], code))
             c_ = script['procs'][r['i']]
-            if r['kind'] == 'start' and not r.get('low') and c_.get('cmd', 0) != 0:
+            if code == 500:
+                return '%sProcess(p%d) was answered with an HTTP error instead of a value or a fault' % (r['kind'], r['i'])
+            if r['kind'] == 'start' and not r.get('low') and c_.get('cmd', 0) in (1, 2, 3, 4):
                 want = 20 if c_['cmd'] == 1 else 21
                 if code != want or r['forked']:
                     return ('startProcess(p%d): the command cannot be run (%s) - expected fault %d and no fork, got %s%s'
@@ -692,7 +694,7 @@ def conf_subset(which):
                                   stopasgroup=(ss ^ sr), killasgroup=1, stopwaitsecs=1 + sr))
     if which in ('C13', 'C01'):
         # commands that cannot be run: missing, not executable, no permission for this user, a directory
-        for cmd in (1, 2, 3, 4):
+        for cmd in (1, 2, 3, 4, 5):
             out.append(mkconf(startsecs=1, startretries=1, autorestart=1, stopwaitsecs=1, cmd=cmd))
     return out
 
@@ -810,6 +812,11 @@ def gen_scripts(chk, which):
             scripts.append((s, 'multi-inflight'))
     for s in multi_scripts(U):
         scripts.append((s, 'multi'))
+    if which in ('C13', 'C01'):
+        # a third of the request-carrying scripts go through the real XML-RPC handler (marshalling both ways)
+        for k, (s, _o) in enumerate(scripts):
+            if k % 3 == 1 and isinstance(s, dict) and 'xml' not in s:
+                s['xml'] = True
     if which in ('C02', 'C06') or not quick:
         scripts.append((many_children_script(105, U), 'many'))
     if which in ('C05', 'C02', 'C06') or not quick:
